@@ -169,6 +169,20 @@ def gen(rng, nm, na):
                 nodev.append(f"S{ln}")
             c["faults"] = {str(rng.randint(1, 4)): [[ln, str(rng.choice([F(2), F(3), F(7, 2)]))]]}
             c.pop("single", None)
+        if j % 5 == 4 and d_lines:
+            # targeted: the sectioning time is written in seconds / minutes / days (the feeder hands its remaining time to the
+            # microgrid), or the run itself is in another unit; one fault in the hosting network, support-mode microgrid
+            if rng.random() < 0.7:
+                c["spec"]["ctrl"]["T_unit"] = rng.choice([1, 2, 2, 4])
+            else:
+                c["unit"] = rng.choice([1, 2, 4])
+            if F(c["spec"]["ctrl"]["T"]) == 0:
+                c["spec"]["ctrl"]["T"] = "1/2"
+            c["spec"]["mg"]["mode"] = rng.choice(["full", "limited"])
+            c["spec"]["ctrl"].pop("nodev", None)
+            k0 = rng.randint(1, 3); ln = rng.choice(d_lines)
+            c["faults"] = {str(k0): [[ln, str(rng.choice([F(2), F(3), F(7, 2)]))]]}
+            c["single"] = [k0, ln]
         if j % 5 == 3 and d_lines:
             # targeted: a sectioning time that is not a multiple of the step (the timers overshoot below zero), one fault in the
             # hosting network, support-mode microgrid: it reconnects in the pass in which the time has run out, not one later
